@@ -98,12 +98,12 @@ theorem repo_not_correct_deq_asymmetric :
 /-- Known finding `static-deq-diverges`: a string against an int recurses forever. -/
 theorem repo_not_correct_deq_diverges :
     staticDeqAccepts (strS "a") (intS 1)
-      (staticDeq LibCfg.repo (strS "a") (intS 1)) (staticDeq LibCfg.repo (intS 1) (strS "a")) = false := by
+      (staticDeq LibCfg.original (strS "a") (intS 1)) (staticDeq LibCfg.original (intS 1) (strS "a")) = false := by
   decide
 
 /-- Known finding `static-reset-text-lost`: Reset of a `*string` assigns to a local, the target keeps "ab". -/
 theorem repo_not_correct_reset_text_lost :
-    staticResetAccepts (strS "ab" true) (staticResetObs LibCfg.repo (strS "ab" true)) = false := by
+    staticResetAccepts (strS "ab" true) (staticResetObs LibCfg.original (strS "ab" true)) = false := by
   decide
 
 /-- The repaired runtime on the same inputs (instances of the theorems above). -/
